@@ -45,6 +45,11 @@ func (mh *MessageHandler) FromMsgReader(_ peer.ID, r msgio.Reader) (message.Grap
 
 	ipldGSM, err := ipldbind.BindnodeRegistry.TypeFromBytes(msg, (*ipldbind.GraphSyncMessageRoot)(nil), dagcbor.Decode)
 	if err != nil {
+		if err == io.EOF {
+			// the frame was read completely, so this is a message whose encoding
+			// ends early, not the end of the stream
+			err = io.ErrUnexpectedEOF
+		}
 		return message.GraphSyncMessage{}, err
 	}
 	return mh.fromIPLD(ipldGSM.(*ipldbind.GraphSyncMessageRoot))
